@@ -402,8 +402,8 @@ func cmdInject(args []string) {
 	}
 	rep := map[string]interface{}{
 		"evaluations": evals, "distinct_nontrivial": evals,
-		"rule":       "every free-text position of the catalogue (" + fmt.Sprint(len(positions)) + " positions) x every hostile string class; each case renders server, client and cli with the swagger binary built from /repo and compares the go/parser AST of every generated file (comments and literal values erased, constant string concatenations folded) with the neutral rendering. A generation error is accepted. Every case is distinct (position, class) and non-trivial (the hostile text is designed to leave its lexical context).",
-		"samples":    samples, "coverage": cov, "violations": viols, "generation_errors": genErrors,
+		"rule":    "every free-text position of the catalogue (" + fmt.Sprint(len(positions)) + " positions) x every hostile string class; each case renders server, client and cli with the swagger binary built from /repo and compares the go/parser AST of every generated file (comments and literal values erased, constant string concatenations folded) with the neutral rendering. A generation error is accepted. Every case is distinct (position, class) and non-trivial (the hostile text is designed to leave its lexical context).",
+		"samples": samples, "coverage": cov, "violations": viols, "generation_errors": genErrors,
 		"positions": len(positions), "classes": len(hs),
 	}
 	b, _ := json.MarshalIndent(rep, "", " ")
